@@ -585,10 +585,10 @@ func (d *decoderState) ReadToken() (Token, error) {
 			pos += n
 		}
 		if d.Tokens.Last.NeedObjectName() {
+			if !d.Tokens.Last.isValidNamespace() {
+				return Token{}, wrapSyntacticError(d, errInvalidNamespace, pos-n, +1)
+			}
 			if !d.Flags.Get(jsonflags.AllowDuplicateNames) {
-				if !d.Tokens.Last.isValidNamespace() {
-					return Token{}, wrapSyntacticError(d, errInvalidNamespace, pos-n, +1)
-				}
 				if d.Tokens.Last.isActiveNamespace() && !d.Namespaces.Last().insertQuoted(d.buf[pos-n:pos], flags.IsVerbatim()) {
 					err = wrapWithObjectName(ErrDuplicateName, d.buf[pos-n:pos])
 					return Token{}, wrapSyntacticError(d, err, pos-n, +1) // report position at start of string
@@ -751,11 +751,11 @@ func (d *decoderState) ReadValue(flags *jsonwire.ValueFlags) (Value, error) {
 		err = d.Tokens.appendLiteral()
 	case '"':
 		if d.Tokens.Last.NeedObjectName() {
+			if !d.Tokens.Last.isValidNamespace() {
+				err = errInvalidNamespace
+				break
+			}
 			if !d.Flags.Get(jsonflags.AllowDuplicateNames) {
-				if !d.Tokens.Last.isValidNamespace() {
-					err = errInvalidNamespace
-					break
-				}
 				if d.Tokens.Last.isActiveNamespace() && !d.Namespaces.Last().insertQuoted(d.buf[pos-n:pos], flags.IsVerbatim()) {
 					err = wrapWithObjectName(ErrDuplicateName, d.buf[pos-n:pos])
 					break
